@@ -918,3 +918,45 @@ Theorem presized_message_slice_variant_refuted :
   = (Exact C5xx, Exact C5xx, (true, [1501; 1501; 1501; 2501; 1501]%N), (false, [2; 2; 2; 2]%N)).
 Proof. vm_compute. repeat split. Qed.
 Print Assumptions presized_message_slice_variant_refuted.
+
+(* ---- onProfile and the profile insert service at column level (regenerated; was modelled by hand) -------------- *)
+
+(* parserDoer.onProfile fills every slice field of model.ProfileData by exactly one statement -- eight fields get one
+   element per call, five are replaced by the arrays of the call --, sends and resets under the size test; every column
+   of the profile insert service reads one field, in the way it is filled (a value per element / the field as one array
+   value), every field is read once; the regenerated programs are the modelled ones. *)
+Theorem on_profile_fills_every_column_once :
+  profile_ok gen_on_profile_prog gen_profile_fields gen_profile_cols gen_profile_cols_unknown = true /\
+  gen_on_profile_prog = on_profile_prog_model /\ gen_profile_cols = profile_cols_model.
+Proof. split; [vm_compute; reflexivity|split; reflexivity]. Qed.
+Print Assumptions on_profile_fills_every_column_once.
+
+(* a ProfileData request fits the block all clients share EXACTLY when it carries one row: with `calls` calls of onProfile
+   behind it the eight per-row columns grow by `calls` and the five array columns by one
+   (profile_requests_carry_one_row: every request carries one row) *)
+Theorem profile_requests_fit_the_shared_block : forall calls c,
+  profile_request_cols gen_on_profile_prog gen_profile_cols calls = Some c -> (all_equal c = true <-> calls = 1%N).
+Proof.
+  intros calls c H. split.
+  - intros Hr. destruct (N.eq_dec calls 1) as [E|E]; [exact E|].
+    rewrite (profile_other_rows_torn gen_on_profile_prog gen_profile_fields gen_profile_cols gen_profile_cols_unknown calls c) in Hr; [discriminate|vm_compute; reflexivity|exact E|exact H].
+  - intros ->. exact (proj1 (profile_one_row_rectangular _ _ _ H)).
+Qed.
+Print Assumptions profile_requests_fit_the_shared_block.
+
+Example profile_request_with_two_rows_is_torn :
+  profile_request_cols gen_on_profile_prog gen_profile_cols 2 = Some [2; 2; 2; 1; 2; 2; 1; 2; 2; 2; 1; 1; 1]%N.
+Proof. vm_compute. reflexivity. Qed.
+
+(* profile pushes of any clients, in any interleaving with the flushes, never have a block refused *)
+Theorem profile_pushes_never_fail_a_shared_batch : forall stream,
+  (forall r, In (SvReq r) stream -> exists who, profile_request gen_on_profile_prog gen_profile_cols who 1 = Some r) ->
+  Forall (fun a => sa_ok a = true) (srun 13 0 (sbatch0 13) stream).
+Proof.
+  intros stream H. apply (shared_batch_ok _ _ _ _ 0%N); [reflexivity|].
+  unfold sevs_ok. apply forallb_forall. intros e He. destruct e as [r|]; [|reflexivity].
+  destruct (H r He) as [who Hr]. unfold profile_request in Hr.
+  destruct (profile_request_cols gen_on_profile_prog gen_profile_cols 1) as [c|] eqn:E; [|discriminate]. inversion Hr; subst r.
+  destruct (profile_one_row_rectangular _ _ _ E) as [H1 H2]. unfold sreq_ok. cbn [sr_cols]. rewrite H1, H2. reflexivity.
+Qed.
+Print Assumptions profile_pushes_never_fail_a_shared_batch.
